@@ -375,3 +375,143 @@ def json_equal(exp, got, path=""):
                     return json_equal(exp[k], got[k], path + "/" + k)
                 return "%s/%s: %s vs %s" % (path, k, str(a[k])[:200], str(b[k])[:200])
     return "%s: %s vs %s" % (path, str(a)[:200], str(b)[:200])
+
+
+# ------------------------------------------------------------------------------------------------
+# C06 / C13: diff, apply, reverse, merge
+# ------------------------------------------------------------------------------------------------
+DUPF = DUP_RECURSIVE | DUP_WITH_FLAGS
+CMPX = CMP_FULL | CMP_DEFAULTS
+
+
+def schema_has(m, pred):
+    return any(pred(n) for n in m.all_nodes())
+
+
+class Diff(Oracle):
+    """C06/C13: diff(A,A) is empty; apply(diff(A,B),A)=B (exactly with the defaults option, after validation without);
+    computing/applying leaves the inputs unchanged; the diff survives print/parse and freeing A,B; apply(reverse(d),B)=A;
+    apply(merge(diff(A,B),diff(B,C)),A)=C; merging the undo leaves no change."""
+    name = "diff"
+    family = "plain"             # plain: no user-ordered / duplicate-instance lists; "uord": with them
+
+    def __init__(self):
+        self.info = {}
+
+    def gen(self, rng, tier, scale=1.0):
+        L = []
+        for i in range(self.n(tier, 150, 6000, scale)):
+            plain = (self.family == "plain")
+            m, ig = gen_case(rng, userord=not plain, state=not plain, meta_prob=0.0)
+            a = ig.forest(m)
+            b = yanggen.cross(rng, a, ig.forest(m), m.nodes) if rng.random() < 0.8 else ig.forest(m)
+            c = yanggen.cross(rng, b, ig.forest(m), m.nodes)
+            s = Script()
+            s.ctx()
+            s.mod(m.yang())
+            s.parse(0, "x", yanggen.to_xml(a))             # 2
+            s.parse(1, "j", yanggen.to_json(b))            # 3
+            s.parse(9, "x", yanggen.to_xml(c))             # 4
+            s.dump(0); s.dump(1)                           # 5 6
+            for opts in (DIFF_DEFAULTS, 0):
+                s.add("diff", "t0", "t1", opts, "t2")      # +0
+                s.add("diff", "t0", "t0", opts, "t4")      # +1
+                s.dump(4)                                  # +2
+                s.add("dup", "t0", "t3", DUPF)             # +3
+                s.add("apply", "t3", "t2")                 # +4
+                if not opts:
+                    s.add("val", "t3", "c0", VAL_PRESENT)
+                else:
+                    s.add("inv", "t3")                     # +5
+                s.add("cmp", "t3", "t1", CMPX if opts else CMP_FULL)   # +6
+                s.dump(3, 0 if opts else 2)                # +7
+                s.dump(1, 0 if opts else 2)                # +8
+            # purity
+            s.dump(0); s.dump(1)                           # 25 26
+            # reverse (defaults diff)
+            s.add("diff", "t0", "t1", DIFF_DEFAULTS, "t2")
+            s.add("rev", "t2", "t7")
+            s.add("dup", "t1", "t8", DUPF)
+            s.add("apply", "t8", "t7")                     # 30
+            s.add("cmp", "t8", "t0", CMPX)                 # 31
+            # merge
+            s.add("diff", "t1", "t9", DIFF_DEFAULTS, "t10")
+            s.add("dup", "t2", "t11", DUPF)
+            s.add("dmerge", "t11", "t10", 0)               # 34
+            s.add("dup", "t0", "t12", DUPF)
+            s.add("apply", "t12", "t11")                   # 36
+            s.add("cmp", "t12", "t9", CMPX)                # 37
+            # merge undo
+            s.add("diff", "t1", "t0", DIFF_DEFAULTS, "t13")
+            s.add("dup", "t2", "t14", DUPF)
+            s.add("dmerge", "t14", "t13", 0)               # 40
+            s.add("dup", "t0", "t15", DUPF)
+            s.add("apply", "t15", "t14")                   # 42
+            s.add("cmp", "t15", "t0", CMPX)                # 43
+            # self-contained: print the diff, free A and B, parse it back, apply to a copy of A
+            s.add("dup", "t0", "t16", DUPF)
+            s.add("rt", "t2", "t5", "b", PRINT_SIBLINGS, PARSE_ONLY, 0, "c0")   # 45
+            s.add("dup", "t1", "t17", DUPF)
+            s.add("free", "t0"); s.add("free", "t1"); s.add("free", "t2")
+            s.add("apply", "t16", "t5")                    # 50
+            s.add("cmp", "t16", "t17", CMPX)               # 51
+            L.append(s.line())
+            # libyang treats every config-false (leaf-)list as user-ordered
+            uo = schema_has(m, lambda n: getattr(n, "userord", False) or (n.kind in ("list", "leaf-list") and not n.config))
+            di = schema_has(m, lambda n: (n.kind == "list" and not n.keys) or (n.kind == "leaf-list" and not n.config))
+            self.info[L[-1]] = (uo, di)
+        return L
+
+    def judge(self, line, out):
+        if crashed(out):
+            return (None, "crash: " + out)
+        r = results(out)
+        if r[1] != "0" or rc(r[2]) != 0 or rc(r[3]) != 0 or rc(r[4]) != 0:
+            return None
+        uo, di = self.info.get(line, (False, False))
+        a0, b0 = r[5], r[6]
+        k = 7
+        for opts in (DIFF_DEFAULTS, 0):
+            what = "diff options=%d" % opts
+            if r[k] != "0":
+                return (None, "lyd_diff_siblings(A,B) failed: %s (%s)" % (r[k], what))
+            if r[k + 1] != "0" or r[k + 2] != "empty":
+                return (None, "diff(A,A) is not empty (%s)" % what)
+            if not r[k + 4].startswith("0"):
+                return (None, "apply(diff(A,B),A) failed: %s (%s)" % (r[k + 4], what))
+            if "!" in r[k + 4]:
+                return ("diff-apply-first-sibling" if uo else None, "lyd_diff_apply_all left *data not at the first sibling")
+            if opts and r[k + 5] != "ok":
+                return (None, "tree after apply breaks an invariant: " + r[k + 5])
+            if (not opts) and rc(r[k + 5]) != 0:
+                return (None, "validation after apply failed: " + r[k + 5])
+            if (not opts) and "empty" in (a0, b0):
+                pass        # LYD_VALIDATE_PRESENT adds no defaults to an empty tree: not comparable after re-validation
+            elif r[k + 6] != "0" or r[k + 7] != r[k + 8]:
+                if di and r[k + 7].replace(":ds", ":s") == r[k + 8].replace(":ds", ":s"):
+                    return ("dupinst-dflt-flag", "instances of a key-less list / state leaf-list that differ only in default flags "
+                            "are matched as equal by the diff")
+                return (None, "apply(diff(A,B),A) != B (%s)" % what)
+            k += 9
+        if r[25] != a0 or r[26] != b0:
+            return (None, "diff/apply modified its inputs")
+        # reverse
+        if r[28] != "0":
+            return (None, "lyd_diff_reverse_all failed: " + r[28])
+        if not r[30].startswith("0") or "!" in r[30] or r[31] != "0":
+            tag = "uord-reverse" if uo else ("dupinst-reverse" if di else None)
+            return (tag, "apply(reverse(diff(A,B)),B) != A: apply=%s cmp=%s" % (r[30], r[31]))
+        # merge (claimed for non user-ordered data only)
+        if not (uo or di):
+            if r[34] != "0" or not r[36].startswith("0") or r[37] != "0":
+                return (None, "apply(merge(diff(A,B),diff(B,C)),A) != C: merge=%s apply=%s cmp=%s" % (r[34], r[36], r[37]))
+            if r[40] != "0" or not r[42].startswith("0") or r[43] != "0":
+                return (None, "merging the undoing diff does not cancel: merge=%s apply=%s cmp=%s" % (r[40], r[42], r[43]))
+        if rc(r[45]) != 0 or not r[50].startswith("0") or r[51] != "0":
+            return (None, "printed/parsed diff applied after freeing A,B does not give B: rt=%s apply=%s cmp=%s" % (r[45], r[50], r[51]))
+        return None
+
+
+class DiffUord(Diff):
+    name = "diff-uord"
+    family = "uord"
